@@ -217,21 +217,42 @@ int main (void)
       printf ("hash %" PRIu32 "\n", fast_simple_hash (n, nl));
       free (n);
     }
-    else if (l.n == 7 && !strcmp (l.w[0], "auth") && lp_u64 (l.w[1], &a) && lp_u64 (l.w[2], &b)
-             && lp_u64 (l.w[3], &c))
-    { /* a whole presentation through the public API; the script supplies the
-         already parsed parameters (the header parser is C14's subject) */
+    else if (l.n == 8 && !strcmp (l.w[0], "auth") && lp_u64 (l.w[2], &a) && lp_u64 (l.w[3], &b)
+             && lp_u64 (l.w[4], &c))
+    { /* a whole presentation through one of the public entry points (w[1]):
+           c3  MHD_digest_auth_check3          d3  MHD_digest_auth_check_digest3
+           c2  MHD_digest_auth_check2          dg2 MHD_digest_auth_check_digest2
+           c1  MHD_digest_auth_check           dg1 MHD_digest_auth_check_digest
+         each called with its own argument convention; the script supplies the already
+         parsed Authorization parameters (the header parser is C14's subject) */
       enum MHD_DigestBaseAlgo ba; enum MHD_DigestAuthAlgo3 a3;
       struct MHD_RqDAuth *p;
-      enum MHD_DigestAuthResult res;
+      enum MHD_DigestAuthResult res = MHD_DAUTH_ERROR;
+      int lres = 0, legacy = 1;
+      const char *api = l.w[1];
       size_t nl;
-      uint8_t *n = lp_unhex (l.w[4], &nl);
-      const char *nctxt = strcmp (l.w[5], "-") ? l.w[5] : "";
+      uint8_t udig[MAX_DIGEST];
+      size_t udig_size;
+      enum MHD_DigestAuthAlgorithm lalgo;
+      uint8_t *n = lp_unhex (l.w[5], &nl);
+      const char *nctxt = strcmp (l.w[6], "-") ? l.w[6] : "";
+      int api_ok;
       if (!n || !base_algo (a, &ba, &a3) || b >= ((uint64_t) 1 << 32) || c >= ((uint64_t) 1 << 32))
       { free (n); puts ("bad-op"); continue; }
+      /* the legacy entry points have no max_nc parameter; _check and _check_digest are
+         MD5 only; _check_digest2 needs exactly one of MD5 / SHA-256 */
+      api_ok = (!strcmp (api, "c3") || !strcmp (api, "d3"))
+               || (!strcmp (api, "c2") && 0 == c)
+               || (!strcmp (api, "c1") && 0 == c && 0 == a)
+               || (!strcmp (api, "dg2") && 0 == c && a <= 1)
+               || (!strcmp (api, "dg1") && 0 == c && 0 == a);
+      if (!api_ok) { free (n); puts ("bad-op"); continue; }
+      lalgo = (0 == a) ? MHD_DIGEST_ALG_MD5 : ((1 == a) ? MHD_DIGEST_ALG_SHA256 : MHD_DIGEST_ALG_AUTO);
+      udig_size = digest_get_hash_size (a3);
+      if (MHD_YES != MHD_digest_auth_calc_userdigest (a3, "user", "realm", "pass", udig, udig_size)) abort ();
       p = (struct MHD_RqDAuth *) calloc (1, sizeof (*p));
       set_param (&p->nonce, n, nl);
-      set_param (&p->response, l.w[6], strlen (l.w[6]));
+      set_param (&p->response, l.w[7], strlen (l.w[7]));
       set_param (&p->username, "user", 4);
       set_param (&p->realm, "realm", 5);
       set_param (&p->uri, "/", 1);
@@ -243,18 +264,46 @@ int main (void)
       p->qop = MHD_DIGEST_AUTH_QOP_AUTH;
       conn_s.rq.dauth_tried = true;
       conn_s.rq.dauth = p;
-      res = MHD_digest_auth_check3 (&conn_s, "realm", "user", "pass", (unsigned int) b, (uint32_t) c,
-                                    MHD_DIGEST_AUTH_MULT_QOP_AUTH,
-                                    MHD_DIGEST_AUTH_MULT_ALGO3_ANY_NON_SESSION);
-      switch (res)
+      if (!strcmp (api, "c3"))
       {
-      case MHD_DAUTH_OK: puts ("ok"); break;
-      case MHD_DAUTH_NONCE_STALE: puts ("stale"); break;
-      case MHD_DAUTH_NONCE_WRONG: puts ("wrong"); break;
-      case MHD_DAUTH_WRONG_HEADER: puts ("hdr"); break;
-      case MHD_DAUTH_RESPONSE_WRONG: puts ("resp-wrong"); break;
-      default: printf ("other %d\n", (int) res); break;
+        legacy = 0;
+        res = MHD_digest_auth_check3 (&conn_s, "realm", "user", "pass", (unsigned int) b, (uint32_t) c,
+                                      MHD_DIGEST_AUTH_MULT_QOP_AUTH,
+                                      MHD_DIGEST_AUTH_MULT_ALGO3_ANY_NON_SESSION);
       }
+      else if (!strcmp (api, "d3"))
+      {
+        legacy = 0;
+        res = MHD_digest_auth_check_digest3 (&conn_s, "realm", "user", udig, udig_size,
+                                             (unsigned int) b, (uint32_t) c,
+                                             MHD_DIGEST_AUTH_MULT_QOP_AUTH,
+                                             (enum MHD_DigestAuthMultiAlgo3) a3);
+      }
+      else if (!strcmp (api, "c2"))
+        lres = MHD_digest_auth_check2 (&conn_s, "realm", "user", "pass", (unsigned int) b, lalgo);
+      else if (!strcmp (api, "c1"))
+        lres = MHD_digest_auth_check (&conn_s, "realm", "user", "pass", (unsigned int) b);
+      else if (!strcmp (api, "dg2"))
+        lres = MHD_digest_auth_check_digest2 (&conn_s, "realm", "user", udig, udig_size, (unsigned int) b, lalgo);
+      else
+        lres = MHD_digest_auth_check_digest (&conn_s, "realm", "user", udig, (unsigned int) b);
+      if (legacy)
+      {
+        if (MHD_YES == lres) puts ("yes");
+        else if (MHD_INVALID_NONCE == lres) puts ("invalid");
+        else if (MHD_NO == lres) puts ("no");
+        else printf ("other %d\n", lres);
+      }
+      else
+        switch (res)
+        {
+        case MHD_DAUTH_OK: puts ("ok"); break;
+        case MHD_DAUTH_NONCE_STALE: puts ("stale"); break;
+        case MHD_DAUTH_NONCE_WRONG: puts ("wrong"); break;
+        case MHD_DAUTH_WRONG_HEADER: puts ("hdr"); break;
+        case MHD_DAUTH_RESPONSE_WRONG: puts ("resp-wrong"); break;
+        default: printf ("other %d\n", (int) res); break;
+        }
       conn_s.rq.dauth = NULL;
       free ((void *) p->nonce.value.str); free ((void *) p->response.value.str);
       free ((void *) p->username.value.str); free ((void *) p->realm.value.str);
